@@ -69,7 +69,7 @@ def generate(rng, tier, idx):
                 'chunks': rng.choice([None, None, 'mixed', 'tiny', 4096]),
                 'tree': g['tree'], 'manifests': g['manifests'], 'muts': muts, 'assigns': assigns,
                 'probes': probes[:3], 'subs': sorted(set([''] + [d for d in info['view_dirs'] if d and rng.random() < 0.3]))[:3]}
-    sc = GU.gen_history(rng, {'tree': {'p_dup': 0.02}})
+    sc = GU.gen_history(rng, {'tree': {'p_dup': 0.02}, 'p_variant_sibling': 0.0})      # (formats are redrawn below)
     sc['prop'] = ID
     sc['mode'] = 'watermark'
     logical = sorted(set(logical_name(m['p']) for m in sc['manifests'] if m['p'] != 'Manifest'))
